@@ -1,6 +1,18 @@
 """Per-profile tier budgets: number of seeded runs and wall-clock cap (budget exhaustion is not an error)."""
 
 TIERS = {
+    "getter": {
+        "quick": {"runs": 640, "budget_s": 70, "min_budget": 150},
+        "thorough": {"runs": 20000, "budget_s": 540, "min_budget": 300},
+    },
+    "versions": {
+        "quick": {"runs": 640, "budget_s": 70, "min_budget": 150},
+        "thorough": {"runs": 20000, "budget_s": 540, "min_budget": 300},
+    },
+    "algebra": {
+        "quick": {"runs": 640, "budget_s": 70, "min_budget": 150},
+        "thorough": {"runs": 20000, "budget_s": 540, "min_budget": 300},
+    },
     "values": {
         "quick": {"runs": 640, "budget_s": 70, "min_budget": 150},
         "thorough": {"runs": 20000, "budget_s": 540, "min_budget": 300},
